@@ -233,8 +233,12 @@ def gen_spec(ctx, rng, tier, force=None):
         rng.shuffle(order)
         plan = {'plan': 'one', 'a': a, 'k': k, 'order': order, 'by_loc': by_loc}
     kill = None
-    if gran == 'line' and not force.get('no_kill') and rng.random() < 0.08:
-        # fault: one thread's call dies part-way (failed allocation) while the others go on
+    # The fault "one thread's call dies part-way (MemoryError at an interrupt point)" is implemented but NOT
+    # drawn by the deciding check: C16 quantifies over schedules of calls, not over crashes of other threads.
+    # With it, a property-preserving lazy-import refactor (control ok6) was reported because CPython hands
+    # threads that wait for a module whose import then fails a half-initialised module object (ImportError in
+    # the waiters) -- an alarm that needs an injected fault the property does not speak about.  DESIGN.md 10.2.
+    if force.get('kill') and gran == 'line':
         kt = rng.randrange(T)
         ipts = sum(ctx.oracle(c, gran='ipoint')['isteps'] for c in threads[kt])
         kill = {'t': kt, 'k': rng.randrange(max(1, ipts)), 'exc': 'MemoryError'}
